@@ -1,17 +1,826 @@
 package main
 
-import "fmt"
+import (
+	"fmt"
+	"go/ast"
+	"go/constant"
+	"go/token"
+	"go/types"
+	"sort"
+	"strings"
 
-func init() { register("C03", "parser builds the tree the source spells out", checkC03) }
+	"golang.org/x/tools/go/ssa"
+)
+
+func init() { register("C03", "the parser builds the tree the source spells out", checkC03) }
+
+// the operator ladder of the property statement, loosest to tightest ("?:" is keyed by its first token)
+type opClass struct {
+	level int
+	right bool
+}
+
+var c03Ladder = map[string]opClass{
+	"'?'": {0, true}, "NILCOALESCE": {0, true},
+	"OROR": {1, false}, "ANDAND": {2, false},
+	"EQEQ": {3, false}, "NEQ": {3, false}, "'<'": {3, false}, "LE": {3, false}, "'>'": {3, false}, "GE": {3, false},
+	"'+'": {4, false}, "'-'": {4, false}, "'|'": {4, false},
+	"'*'": {5, false}, "'/'": {5, false}, "'%'": {5, false}, "SHIFTLEFT": {5, false}, "SHIFTRIGHT": {5, false}, "'&'": {5, false},
+	"IN": {6, false},
+}
+var c03Prefix = []string{"'-'", "'!'", "'^'", "'&'", "'*'"}
+var c03Postfix = []string{"'('", "'['", "'.'"}
+
+func actName(k int) string {
+	switch k {
+	case actShift:
+		return "shift"
+	case actReduce:
+		return "reduce"
+	case actAccept:
+		return "accept"
+	}
+	return "error"
+}
 
 func checkC03(p *Program, r *Report) {
+	r.Explain("C03: the three finite artefacts that determine the tree are decided exhaustively from the compiled parser (parser/parser.go) and the scanner. " +
+		"R1 precedence/associativity: the grammar is recovered from the LALR tables alone; for every completed binary / prefix / ternary item, in every state reached after it from every state where it can start, the table's action on every operator lookahead is compared with the operator ladder of the statement (reduce when the completed operator binds tighter or equally and is left-associative, shift otherwise; postfix openers always shift). An LR parser's decision depends only on (state, lookahead), so the finite matrix covers expression trees of any depth in every statement position. " +
+		"R2 actions: every expression symbol of a production's right-hand side is used as a child of the node built (none dropped, none used twice outside the documented op= / ++ shorthands), operand fields take distinct symbols, and all productions building one node kind agree on the order of its fields (the evaluator's order is tied to it by C07.R2). " +
+		"R3 spelling: for every operator production the Operator string of the node equals the text the scanner attaches to the production's token, the scanner maps exactly one character sequence to each token, and the handler of the node kind built has a case for that string. " +
+		"R4 numbers: toNumber returns the strconv result unmodified and propagates every strconv error; the NUMBER actions turn the error into a parse error. R5 scanner lookahead balance is decided with C15.R1's cursor analysis.")
+	r.Assume("strconv implements Go's literal semantics; escape handling of strings is checked structurally only (C15)")
+	r.Exhaustive = true
 	g, err := BuildLALR(p)
 	if err != nil {
 		r.Undecided("C03.R1", "tables", "parser/parser.go", err.Error())
 		return
 	}
-	fmt.Println("states", g.NStates, "reach", len(g.Reach), "tokens", g.NTok, "rules", len(g.R1), "recovered", len(g.RHS), "ambig", len(g.Ambig))
-	for r := 1; r < len(g.R1); r++ {
-		fmt.Println(g.RuleString(r))
+	if len(g.Ambig) > 0 {
+		r.Undecided("C03.R1", "grammar", "parser/parser.go", "grammar recovery ambiguous: "+strings.Join(g.Ambig, "; "))
+		return
 	}
+	r.Note("states", g.NStates)
+	r.Note("rules_recovered", len(g.RHS))
+	r.Floor("C03.R0", len(g.RHS), 180)
+	nm, err := BuildNodeModel(p, g)
+	if err != nil {
+		r.Undecided("C03.R2", "model", "parser", err.Error())
+		return
+	}
+	// the expression nonterminal: X in the rule  _ -> X '+' X
+	plus := g.TokByName("'+'")
+	E := 0
+	for rule, rhs := range g.RHS {
+		_ = rule
+		if len(rhs) == 3 && rhs[1] == plus && rhs[0] < 0 && rhs[0] == rhs[2] {
+			E = rhs[0]
+		}
+	}
+	if E == 0 {
+		r.Undecided("C03.R1", "expr", "parser/parser.go", "expression nonterminal not found (no rule X '+' X)")
+		return
+	}
+	tok := map[string]int{}
+	for name := range c03Ladder {
+		t := g.TokByName(name)
+		if t == 0 {
+			r.Undecided("C03.R1", "token "+name, "parser/parser.go", "operator token of the statement's ladder not found in the parser")
+			return
+		}
+		tok[name] = t
+	}
+	for _, name := range append(append([]string{}, c03Prefix...), c03Postfix...) {
+		if t := g.TokByName(name); t != 0 {
+			tok[name] = t
+		} else {
+			r.Undecided("C03.R1", "token "+name, "parser/parser.go", "token not found in the parser")
+			return
+		}
+	}
+	var opNames []string
+	for n := range c03Ladder {
+		opNames = append(opNames, n)
+	}
+	sort.Strings(opNames)
+	site := "parser/parser.go (tables)"
+	nCells, nBinary := 0, 0
+	expect := func(inst string, rule int, states map[int][]int, la string, want int, why string) {
+		for s := range states {
+			nCells++
+			k, arg := g.Action(s, tok[la])
+			if k == actReduce && want == actReduce && arg != rule {
+				r.Fail("C03.R1", inst+" . "+la, site, fmt.Sprintf("in state %d the parser reduces by rule %d instead of rule %d on %s", s, arg, rule, la))
+				return
+			}
+			if k != want {
+				r.Fail("C03.R1", inst+" . "+la, site, fmt.Sprintf("in state %d the parser would %s on %s, the operator table requires %s (%s)", s, actName(k), la, actName(want), why))
+				return
+			}
+		}
+		r.OK("C03.R1", inst+" . "+la, site, fmt.Sprintf("%s in all %d states (%s)", actName(want), len(states), why))
+	}
+	var rules []int
+	for rule := range g.RHS {
+		rules = append(rules, rule)
+	}
+	sort.Ints(rules)
+	for _, rule := range rules {
+		rhs := g.RHS[rule]
+		switch {
+		case len(rhs) == 3 && rhs[0] == E && rhs[2] == E && rhs[1] > 0:
+			name := g.TokName(rhs[1])
+			c1, ok := c03Ladder[name]
+			if !ok || name == "'?'" {
+				continue
+			}
+			nBinary++
+			states := g.AfterRule(rule)
+			inst := "E " + name + " E"
+			if len(states) == 0 {
+				r.Undecided("C03.R1", inst, site, "no state reached after the production's right-hand side")
+				continue
+			}
+			for _, la := range opNames {
+				c2 := c03Ladder[la]
+				want := actShift
+				why := la + " binds tighter"
+				if c1.level > c2.level {
+					want, why = actReduce, name+" binds tighter than "+la
+				} else if c1.level == c2.level {
+					if c1.right {
+						want, why = actShift, "same level, right-associative"
+					} else {
+						want, why = actReduce, "same level, left-associative"
+					}
+				}
+				expect(inst, rule, states, la, want, why)
+			}
+			for _, la := range c03Postfix {
+				expect(inst, rule, states, la, actShift, "postfix binds tightest")
+			}
+		case len(rhs) == 2 && rhs[1] == E && rhs[0] > 0:
+			name := g.TokName(rhs[0])
+			isPrefix := false
+			for _, u := range c03Prefix {
+				if u == name {
+					isPrefix = true
+				}
+			}
+			if !isPrefix {
+				continue
+			}
+			nBinary++
+			states := g.AfterRule(rule)
+			inst := "prefix " + name + " E"
+			for _, la := range opNames {
+				expect(inst, rule, states, la, actReduce, "unary operators bind tighter than every binary operator")
+			}
+			for _, la := range c03Postfix {
+				expect(inst, rule, states, la, actShift, "postfix binds tighter than unary")
+			}
+		case len(rhs) == 5 && rhs[0] == E && rhs[2] == E && rhs[4] == E && g.TokName(rhs[1]) == "'?'":
+			nBinary++
+			states := g.AfterRule(rule)
+			inst := "E ? E : E"
+			for _, la := range opNames {
+				expect(inst, rule, states, la, actShift, "?: is the loosest operator and right-associative")
+			}
+			for _, la := range c03Postfix {
+				expect(inst, rule, states, la, actShift, "postfix binds tightest")
+			}
+		}
+	}
+	r.Floor("C03.R1", nBinary, 25)
+	r.Note("matrix_cells", nCells)
+
+	c03Actions(p, r, g, nm, E)
+	// the production and the evaluator must agree on which branch of ?: is which (shared with C07.R4)
+	if m, err := buildVMModel(p); err == nil {
+		c07ShortCircuitAs(p, r, m, buildEvalAnalysis(m), "C03.R2", true)
+	}
+	c03Spelling(p, r, g, nm, E)
+	c03Numbers(p, r, g)
+}
+
+// exprSymbols: nonterminals that carry expression nodes or lists of them (kinds flow to category Expr/Operator).
+func exprSymbol(nm *NodeModel, sym int) bool {
+	if sym >= 0 {
+		return false
+	}
+	prefix := fmt.Sprintf("nt:%d.", -sym)
+	for loc, ks := range nm.Loc {
+		if !strings.HasPrefix(loc, prefix) {
+			continue
+		}
+		for k := range ks {
+			if nm.Loc["cat:Expr"][k] || nm.Loc["cat:Operator"][k] {
+				return true
+			}
+		}
+	}
+	return false
+}
+
+func c03Actions(p *Program, r *Report, g *LALR, nm *NodeModel, E int) {
+	info := g.Info
+	n := 0
+	var rules []int
+	for rule := range g.Clauses {
+		rules = append(rules, rule)
+	}
+	sort.Ints(rules)
+	for _, rule := range rules {
+		cc := g.Clauses[rule]
+		rhs := g.RHS[rule]
+		if rule <= 0 || rule >= len(g.R1) {
+			continue
+		}
+		// which $k are expression-valued
+		var exprPos []int
+		for i, s := range rhs {
+			if exprSymbol(nm, s) {
+				exprPos = append(exprPos, i+1)
+			}
+		}
+		if len(exprPos) == 0 {
+			continue
+		}
+		// uses of yyDollar[k] as a value that ends up in the tree (anything but the receiver of a .Position()/SetPosition call or a len()/nil test)
+		used := map[int]int{}
+		var walk func(n ast.Node, asValue bool)
+		walk = func(nd ast.Node, asValue bool) {
+			switch x := nd.(type) {
+			case nil:
+				return
+			case *ast.SelectorExpr:
+				if ix, ok := x.X.(*ast.IndexExpr); ok {
+					if id, ok := ix.X.(*ast.Ident); ok && id.Name == "yyDollar" {
+						if tv := info.Types[ix.Index]; tv.Value != nil {
+							if k, ok := constant.Int64Val(tv.Value); ok && asValue {
+								used[int(k)]++
+							}
+						}
+						return
+					}
+				}
+				walk(x.X, asValue)
+			case *ast.CallExpr:
+				if sel, ok := x.Fun.(*ast.SelectorExpr); ok && (sel.Sel.Name == "Position" || sel.Sel.Name == "SetPosition" || sel.Sel.Name == "Error") {
+					walk(sel.X, false)
+					for _, a := range x.Args {
+						walk(a, false)
+					}
+					return
+				}
+				if id, ok := x.Fun.(*ast.Ident); ok && id.Name == "len" {
+					return
+				}
+				walk(x.Fun, asValue)
+				for _, a := range x.Args {
+					walk(a, asValue)
+				}
+			case *ast.BinaryExpr:
+				if x.Op == token.EQL || x.Op == token.NEQ || x.Op == token.LSS || x.Op == token.GTR || x.Op == token.LEQ || x.Op == token.GEQ || x.Op == token.LAND || x.Op == token.LOR {
+					walk(x.X, false)
+					walk(x.Y, false)
+					return
+				}
+				walk(x.X, asValue)
+				walk(x.Y, asValue)
+			case *ast.IfStmt:
+				walk(x.Init, asValue)
+				walk(x.Cond, false)
+				walk(x.Body, asValue)
+				walk(x.Else, asValue)
+			case *ast.TypeAssertExpr:
+				walk(x.X, asValue)
+			case *ast.AssignStmt:
+				// `_, ok := $3[0].(*ast.ItemExpr)` is a test, not a use
+				isTest := false
+				if len(x.Lhs) == 2 {
+					if id, ok := x.Lhs[0].(*ast.Ident); ok && id.Name == "_" {
+						isTest = true
+					}
+				}
+				for _, e := range x.Rhs {
+					walk(e, asValue && !isTest)
+				}
+				for _, e := range x.Lhs {
+					walk(e, false)
+				}
+			default:
+				ast.Inspect(nd, func(c ast.Node) bool {
+					if c == nd || c == nil {
+						return true
+					}
+					walk(c, asValue)
+					return false
+				})
+			}
+		}
+		for _, st := range cc.Body {
+			walk(st, true)
+		}
+		n++
+		inst := fmt.Sprintf("rule %s", g.RuleString(rule))
+		site := p.Pos(cc.Pos())
+		var dropped []string
+		for _, k := range exprPos {
+			if used[k] == 0 && !(len(cc.Body) == 0 && k == 1) && !defaultCopies(cc, k) {
+				dropped = append(dropped, fmt.Sprintf("$%d", k))
+			}
+		}
+		r.Check(len(dropped) == 0, "C03.R2", inst+"|operands kept", site, "every expression symbol of the right-hand side becomes part of the node built", "expression symbol(s) "+strings.Join(dropped, ", ")+" of the production are not placed in the tree: that part of the source is lost")
+	}
+	r.Floor("C03.R2", n, 100)
+	// distinct symbols per operand field; productions agree on field order
+	byKind := map[string][]Producer{}
+	for _, pr := range nm.Producers {
+		byKind[pr.Kind] = append(byKind[pr.Kind], pr)
+	}
+	var kinds []string
+	for k := range byKind {
+		kinds = append(kinds, k)
+	}
+	sort.Strings(kinds)
+	for _, k := range kinds {
+		var exprFields []string
+		for _, cf := range nm.Children[k] {
+			if cf.Cat == "Expr" {
+				exprFields = append(exprFields, cf.Name)
+			}
+		}
+		if len(exprFields) < 2 {
+			continue
+		}
+		for _, pr := range byKind[k] {
+			seen := map[int]string{}
+			for _, f := range exprFields {
+				nn := pr.Fields[f]
+				if nn == 0 {
+					continue
+				}
+				if nn-1 < len(g.RHS[pr.Rule]) && listSymbol(nm, g.RHS[pr.Rule][nn-1]) {
+					continue // elements of a list symbol ($1[0], $1[1]) are distinct operands
+				}
+				inst := fmt.Sprintf("%s|rule %d|distinct operands", k, pr.Rule)
+				if other, dup := seen[nn]; dup {
+					// the op= / ++ shorthands reuse $1 on purpose, but in different nodes; within one node it is a mistake
+					r.Fail("C03.R2", inst, p.Pos(pr.Pos), fmt.Sprintf("fields %s and %s of %s are both fed by $%d", other, f, k, nn))
+				}
+				seen[nn] = f
+			}
+		}
+		for i := 0; i < len(exprFields); i++ {
+			for j := i + 1; j < len(exprFields); j++ {
+				f, gname := exprFields[i], exprFields[j]
+				_, ok := nm.Before(k, f, gname)
+				together := false
+				for _, pr := range byKind[k] {
+					if pr.Fields[f] != 0 && pr.Fields[gname] != 0 {
+						together = true
+					}
+				}
+				if together {
+					r.Check(ok, "C03.R2", fmt.Sprintf("%s|%s vs %s|productions agree", k, f, gname), "parser/parser.go", "all productions building this node feed the two fields in the same source order", fmt.Sprintf("productions building %s disagree on whether %s or %s comes first in the source: one of them swaps its operands", k, f, gname))
+				}
+			}
+		}
+	}
+}
+
+// defaultCopies: an empty action (or one that does not assign yyVAL) passes $1 through.
+func defaultCopies(cc *ast.CaseClause, k int) bool {
+	if k != 1 {
+		return false
+	}
+	assigns := false
+	ast.Inspect(cc, func(n ast.Node) bool {
+		if as, ok := n.(*ast.AssignStmt); ok {
+			for _, l := range as.Lhs {
+				if se, ok := l.(*ast.SelectorExpr); ok {
+					if id, ok := se.X.(*ast.Ident); ok && id.Name == "yyVAL" {
+						assigns = true
+					}
+				}
+			}
+		}
+		return true
+	})
+	return !assigns
+}
+
+// scannerTokens extracts from Scanner.Scan the relation character sequence -> (token, literal text) by a walk of its nested switches.
+type scanTok struct {
+	seq string
+	tok string // constant name or 'c'
+	lit string
+	pos token.Pos
+}
+
+func scannerTokens(p *Program) ([]scanTok, error) {
+	pk := p.Pkg("parser")
+	var scan *ast.FuncDecl
+	for _, f := range pk.Syntax {
+		for _, d := range f.Decls {
+			if fd, ok := d.(*ast.FuncDecl); ok && fd.Recv != nil && fd.Name.Name == "Scan" {
+				scan = fd
+			}
+		}
+	}
+	if scan == nil {
+		return nil, fmt.Errorf("Scanner.Scan not found")
+	}
+	info := pk.TypesInfo
+	var out []scanTok
+	charOf := func(e ast.Expr) (string, bool) {
+		tv := info.Types[e]
+		if tv.Value == nil {
+			return "", false
+		}
+		if v, ok := constant.Int64Val(constant.ToInt(tv.Value)); ok && v > 0 {
+			return string(rune(v)), true
+		}
+		return "", false
+	}
+	var visit func(body []ast.Stmt, seq string)
+	visit = func(body []ast.Stmt, seq string) {
+		tokName, lit := "", ""
+		var tpos token.Pos
+		for _, st := range body {
+			switch x := st.(type) {
+			case *ast.AssignStmt:
+				if len(x.Lhs) == 1 && len(x.Rhs) == 1 {
+					if id, ok := x.Lhs[0].(*ast.Ident); ok {
+						switch id.Name {
+						case "tok":
+							if rid, ok := x.Rhs[0].(*ast.Ident); ok {
+								tokName = rid.Name
+								tpos = x.Pos()
+							} else if c, ok := x.Rhs[0].(*ast.CallExpr); ok && len(c.Args) == 1 {
+								tokName = "'" + seq[:1] + "'" // int(ch)
+								if len(seq) != 1 {
+									tokName = "int(ch)@" + seq
+								}
+								tpos = x.Pos()
+							}
+						case "lit":
+							if tv := info.Types[x.Rhs[0]]; tv.Value != nil && tv.Value.Kind() == constant.String {
+								lit = constant.StringVal(tv.Value)
+							} else if c, ok := x.Rhs[0].(*ast.CallExpr); ok && len(c.Args) == 1 {
+								lit = seq[:1] // string(ch)
+							}
+						}
+					}
+				}
+			case *ast.SwitchStmt:
+				for _, cs := range x.Body.List {
+					cc := cs.(*ast.CaseClause)
+					if len(cc.List) == 0 {
+						visit(cc.Body, seq+"\x00") // default: one character that is not consumed (back)
+						continue
+					}
+					for _, e := range cc.List {
+						if ch, ok := charOf(e); ok {
+							visit(cc.Body, seq+ch)
+						}
+					}
+				}
+			case *ast.IfStmt:
+				// `if s.peek() == '.' {...} else {...}` and the `= <-` lookahead
+				if be, ok := x.Cond.(*ast.BinaryExpr); ok && be.Op == token.EQL {
+					if ch, ok := charOf(be.Y); ok {
+						visit(x.Body.List, seq+ch)
+						if x.Else != nil {
+							if eb, ok := x.Else.(*ast.BlockStmt); ok {
+								visit(eb.List, seq+"\x00")
+							}
+						}
+						continue
+					}
+				}
+				if be, ok := x.Cond.(*ast.BinaryExpr); ok && be.Op == token.LAND {
+					var chs string
+					okAll := true
+					for _, side := range []ast.Expr{be.X, be.Y} {
+						if b2, ok := side.(*ast.BinaryExpr); ok && b2.Op == token.EQL {
+							if ch, ok := charOf(b2.Y); ok {
+								chs += ch
+								continue
+							}
+						}
+						okAll = false
+					}
+					if okAll {
+						visit(x.Body.List, seq+chs)
+						if eb, ok := x.Else.(*ast.BlockStmt); ok {
+							visit(eb.List, seq+"\x00")
+						}
+					}
+				}
+			}
+		}
+		if tokName != "" {
+			out = append(out, scanTok{seq: strings.TrimRight(seq, "\x00"), tok: tokName, lit: lit, pos: tpos})
+		}
+	}
+	// find the `switch ch` in the default clause of the outer tagless switch
+	ast.Inspect(scan.Body, func(n ast.Node) bool {
+		sw, ok := n.(*ast.SwitchStmt)
+		if !ok {
+			return true
+		}
+		if id, ok := sw.Tag.(*ast.Ident); ok && id.Name == "ch" {
+			for _, cs := range sw.Body.List {
+				cc := cs.(*ast.CaseClause)
+				for _, e := range cc.List {
+					if ch, ok := charOf(e); ok {
+						visit(cc.Body, ch)
+					}
+				}
+			}
+			return false
+		}
+		return true
+	})
+	if len(out) < 30 {
+		return nil, fmt.Errorf("only %d token assignments found in Scanner.Scan", len(out))
+	}
+	return out, nil
+}
+
+func c03Spelling(p *Program, r *Report, g *LALR, nm *NodeModel, E int) {
+	toks, err := scannerTokens(p)
+	if err != nil {
+		r.Undecided("C03.R3", "scanner", "parser/lexer.go", err.Error())
+		return
+	}
+	// lit must equal the characters consumed; one sequence per token
+	byTok := map[string][]scanTok{}
+	for _, t := range toks {
+		byTok[t.tok] = append(byTok[t.tok], t)
+		if t.tok == "VARARG" {
+			continue // "..." carries no literal text
+		}
+		want := strings.ReplaceAll(t.seq, "\x00", "")
+		litNorm := strings.ReplaceAll(t.lit, " ", "")
+		seqNorm := strings.ReplaceAll(want, " ", "")
+		r.Check(litNorm == seqNorm, "C03.R3", "scanner|"+t.tok+"|"+want, p.Pos(t.pos), fmt.Sprintf("characters %q yield token %s with text %q", want, t.tok, t.lit), fmt.Sprintf("characters %q are scanned as token %s but the token text is %q", want, t.tok, t.lit))
+	}
+	var names []string
+	for n := range byTok {
+		names = append(names, n)
+	}
+	sort.Strings(names)
+	for _, n := range names {
+		if strings.HasPrefix(n, "'") || strings.HasPrefix(n, "int(ch)") {
+			continue
+		}
+		seqs := map[string]bool{}
+		for _, t := range byTok[n] {
+			seqs[t.seq] = true
+		}
+		r.Check(len(seqs) == 1, "C03.R3", "scanner|one spelling|"+n, p.Pos(byTok[n][0].pos), "exactly one character sequence yields this token", fmt.Sprintf("token %s is produced for %d different character sequences", n, len(seqs)))
+	}
+	r.Floor("C03.R3", len(toks), 40)
+	// operator productions: Operator string == token text; handler has the case
+	m, merr := buildVMModel(p)
+	litOf := func(tokName string) (string, bool) {
+		if strings.HasPrefix(tokName, "'") && len(tokName) >= 3 {
+			return strings.Trim(tokName, "'"), true
+		}
+		if ts, ok := byTok[tokName]; ok {
+			return ts[0].lit, true
+		}
+		return "", false
+	}
+	opKinds := map[string]bool{"BinaryOperator": true, "ComparisonOperator": true, "AddOperator": true, "MultiplyOperator": true, "UnaryExpr": true}
+	nOps := 0
+	for _, pr := range nm.Producers {
+		if !opKinds[pr.Kind] {
+			continue
+		}
+		rhs := g.RHS[pr.Rule]
+		// the operator token of the production: the first token of the right-hand side
+		opTok := ""
+		for _, s := range rhs {
+			if s > 0 {
+				opTok = g.TokName(s)
+				break
+			}
+		}
+		opStr, ok := producerOperator(g, pr)
+		if !ok || opTok == "" {
+			continue
+		}
+		nOps++
+		inst := fmt.Sprintf("%s|rule %d|%s", pr.Kind, pr.Rule, opTok)
+		lit, ok := litOf(opTok)
+		if !ok {
+			r.Fail("C03.R3", inst, p.Pos(pr.Pos), "token "+opTok+" is never produced by the scanner")
+			continue
+		}
+		want := lit
+		// shorthands: "+=" builds "+", "++" builds "+"
+		if len(rhs) >= 2 && (strings.HasSuffix(lit, "=") && len(lit) == 2 && lit != "==" && lit != "!=" && lit != "<=" && lit != ">=") {
+			want = lit[:1]
+		} else if lit == "++" || lit == "--" {
+			want = lit[:1]
+		}
+		r.Check(opStr == want, "C03.R3", inst, p.Pos(pr.Pos), fmt.Sprintf("token text %q builds Operator %q", lit, opStr), fmt.Sprintf("source operator %q builds a node with Operator %q", lit, opStr))
+		// the evaluator of the node kind implements that operator
+		if merr == nil {
+			var h *ssa.Function
+			if pr.Kind == "UnaryExpr" {
+				h = m.handlers["expr"][pr.Kind]
+			} else {
+				h = m.handlers["op"][pr.Kind]
+			}
+			if h == nil {
+				r.Fail("C03.R3", inst+"|handler", "vm", "no handler for "+pr.Kind)
+				continue
+			}
+			has := false
+			for _, b := range h.Blocks {
+				for _, in := range b.Instrs {
+					if bo, ok := in.(*ssa.BinOp); ok && bo.Op == token.EQL {
+						if c, ok := bo.Y.(*ssa.Const); ok && c.Value != nil && c.Value.Kind() == constant.String && constant.StringVal(c.Value) == opStr {
+							has = true
+						}
+					}
+				}
+			}
+			r.Check(has, "C03.R3", inst+"|handler", p.Pos(h.Pos()), funcName(h)+" has a case for \""+opStr+"\"", fmt.Sprintf("the parser builds %s{Operator: %q} but %s has no case for it (runtime error 'unknown operator')", pr.Kind, opStr, funcName(h)))
+		}
+	}
+	r.Floor("C03.R3b", nOps, 28)
+}
+
+// producerOperator finds the constant Operator string of the node literal of a producer.
+func producerOperator(g *LALR, pr Producer) (string, bool) {
+	cc := g.Clauses[pr.Rule]
+	if cc == nil {
+		return "", false
+	}
+	res, found := "", false
+	ast.Inspect(cc, func(n ast.Node) bool {
+		cl, ok := n.(*ast.CompositeLit)
+		if !ok || cl.Pos() != pr.Pos {
+			return true
+		}
+		for _, el := range cl.Elts {
+			if kv, ok := el.(*ast.KeyValueExpr); ok {
+				if key, ok := kv.Key.(*ast.Ident); ok && key.Name == "Operator" {
+					if tv := g.Info.Types[kv.Value]; tv.Value != nil && tv.Value.Kind() == constant.String {
+						res, found = constant.StringVal(tv.Value), true
+					}
+				}
+			}
+		}
+		return false
+	})
+	return res, found
+}
+
+func c03Numbers(p *Program, r *Report, g *LALR) {
+	sp := p.SSAPkg("parser")
+	var toNum *ssa.Function
+	// the function called with the NUMBER token's text in the literal actions: func(string) (reflect.Value, error)
+	for _, fn := range SrcFuncs(sp) {
+		sig := fn.Signature
+		if fn.Parent() == nil && sig.Params().Len() == 1 && sig.Results().Len() == 2 && types.Identical(sig.Params().At(0).Type(), types.Typ[types.String]) &&
+			isNamed(sig.Results().At(0).Type(), "reflect", "Value") && isErrorType(sig.Results().At(1).Type()) {
+			toNum = fn
+		}
+	}
+	if toNum == nil {
+		r.Undecided("C03.R4", "toNumber", "parser/lexer.go", "number conversion function not found")
+		return
+	}
+	site := p.Pos(toNum.Pos())
+	nConv := 0
+	for _, b := range toNum.Blocks {
+		for _, in := range b.Instrs {
+			c, ok := in.(*ssa.Call)
+			if !ok {
+				continue
+			}
+			o := calleeObj(c)
+			if o == nil || o.Pkg() == nil || o.Pkg().Path() != "strconv" {
+				continue
+			}
+			nConv++
+			inst := fmt.Sprintf("toNumber|strconv.%s #%d", o.Name(), nConv)
+			// error propagated
+			okErr := false
+			var val *ssa.Extract
+			for _, ref := range *c.Referrers() {
+				ex, ok := ref.(*ssa.Extract)
+				if !ok {
+					continue
+				}
+				if ex.Index == 0 {
+					val = ex
+				}
+				if ex.Index == 1 {
+					for _, r2 := range *ex.Referrers() {
+						if bo, ok := r2.(*ssa.BinOp); ok && bo.Op == token.NEQ && isNilConst(bo.Y) {
+							for _, r3 := range *bo.Referrers() {
+								if iff, ok := r3.(*ssa.If); ok {
+									t := iff.Block().Succs[0]
+									if ret, ok := t.Instrs[len(t.Instrs)-1].(*ssa.Return); ok && len(ret.Results) == 2 && ret.Results[1] == ssa.Value(ex) {
+										okErr = true
+									}
+								}
+							}
+						}
+					}
+				}
+			}
+			r.Check(okErr, "C03.R4", inst+"|error", p.Pos(c.Pos()), "a conversion error is returned", "the error of strconv."+o.Name()+" is not returned: an unrepresentable literal is accepted with a wrong value")
+			// value returned unmodified
+			okVal := false
+			if val != nil {
+				for _, ref := range *val.Referrers() {
+					if mi, ok := ref.(*ssa.MakeInterface); ok {
+						for _, r2 := range *mi.Referrers() {
+							if vc, ok := r2.(*ssa.Call); ok {
+								if vo := calleeObj(vc); vo != nil && isFuncNamed(vo, "reflect", "", "ValueOf") {
+									for _, r3 := range *vc.Referrers() {
+										if _, ok := r3.(*ssa.Return); ok {
+											okVal = true
+										}
+									}
+								}
+							}
+						}
+					}
+				}
+			}
+			r.Check(okVal, "C03.R4", inst+"|value", p.Pos(c.Pos()), "the literal's value is exactly what strconv returned", "the result of strconv."+o.Name()+" is altered before it becomes the literal's value (range or sign of the literal can be wrong)")
+			// base and bit size
+			if o.Name() == "ParseInt" && len(c.Call.Args) == 3 {
+				base, _ := c.Call.Args[1].(*ssa.Const)
+				bits, _ := c.Call.Args[2].(*ssa.Const)
+				okB := base != nil && bits != nil && bits.Int64() == 64 && (base.Int64() == 10 || base.Int64() == 16 || base.Int64() == 2)
+				r.Check(okB, "C03.R4", inst+"|base", p.Pos(c.Pos()), "parsed as a 64-bit integer in base 2, 10 or 16", "integer literals are not parsed as 64-bit base 2/10/16 numbers")
+			}
+			if o.Name() == "ParseFloat" && len(c.Call.Args) == 2 {
+				bits, _ := c.Call.Args[1].(*ssa.Const)
+				r.Check(bits != nil && bits.Int64() == 64, "C03.R4", inst+"|bits", p.Pos(c.Pos()), "parsed as float64", "float literals are not parsed as float64")
+			}
+		}
+	}
+	r.Floor("C03.R4", nConv, 5)
+	_ = site
+	// the literal actions report the error
+	nAct := 0
+	for rule, cc := range g.Clauses {
+		callsToNum := false
+		reports := false
+		ast.Inspect(cc, func(n ast.Node) bool {
+			if c, ok := n.(*ast.CallExpr); ok {
+				if id, ok := c.Fun.(*ast.Ident); ok {
+					if f, ok := g.Info.Uses[id].(*types.Func); ok && f == toNum.Object() {
+						callsToNum = true
+					}
+				}
+			}
+			if ifs, ok := n.(*ast.IfStmt); ok {
+				if be, ok := ifs.Cond.(*ast.BinaryExpr); ok && be.Op == token.NEQ {
+					if id, ok := be.X.(*ast.Ident); ok && isErrorType(g.Info.TypeOf(id)) {
+						ast.Inspect(ifs.Body, func(n2 ast.Node) bool {
+							if c, ok := n2.(*ast.CallExpr); ok {
+								if sel, ok := c.Fun.(*ast.SelectorExpr); ok && sel.Sel.Name == "Error" {
+									reports = true
+								}
+							}
+							return true
+						})
+					}
+				}
+			}
+			return true
+		})
+		if callsToNum {
+			nAct++
+			r.Check(reports, "C03.R4", fmt.Sprintf("rule %d|reports", rule), p.Pos(cc.Pos()), "a number that cannot be represented is a parse error", "the error of the number conversion is ignored in the grammar action")
+		}
+	}
+	r.Floor("C03.R4b", nAct, 2)
+}
+
+// listSymbol: the grammar symbol carries a list of expressions (its union field is a slice).
+func listSymbol(nm *NodeModel, sym int) bool {
+	if sym >= 0 {
+		return false
+	}
+	prefix := fmt.Sprintf("nt:%d.", -sym)
+	for loc := range nm.Loc {
+		if strings.HasPrefix(loc, prefix) && strings.HasSuffix(loc, ".exprs") {
+			return true
+		}
+	}
+	return false
 }
